@@ -3,6 +3,7 @@ package rules
 import (
 	"go/ast"
 	"go/types"
+	"strings"
 
 	"lachk/core"
 )
@@ -93,12 +94,39 @@ func c02FieldCalls(f *core.FuncInfo, field string) []*core.CallSite {
 	})
 }
 
+// c02DecideView: the inlined view of Orderer.onFrameDecided; the methods of Store are anchors and stay calls.
+func c02DecideView(c *core.Ctx) *core.FuncInfo {
+	f := c.Fn("abft.Orderer.onFrameDecided")
+	var keep []string
+	for _, g := range c.P.FuncsInPkg("abft") {
+		if strings.HasPrefix(g.Name, "abft.Store.") {
+			keep = append(keep, g.Name)
+		}
+	}
+	return c01View(f, keep...)
+}
+
+// c02MustPassBefore: every path from the entry to `to` passes one of `via`; values of plain locals
+// (errors handed on by folded-in helpers) are followed.
+func c02MustPassBefore(f *core.FuncInfo, via []core.Point, to core.Point) (bool, []core.Point) {
+	if core.PointSet(via...)(f.Entry()) {
+		return true, nil
+	}
+	path, found := c01EnvQuery{F: f, From: f.Entry(), Target: core.PointSet(to), Avoid: core.PointSet(via...)}.Find()
+	return !found, path
+}
+
 // frameBookkeeping is shared by C02, C08 and C09. It is stated per path, not per branch: however many
 // Reset calls and LastDecidedFrame assignments onFrameDecided has (one per branch, or one Reset fed by
 // locals that the branches set), on every path the frame the election restarts at is one above the
 // frame persisted as last decided.
 func frameBookkeeping(c *core.Ctx) {
-	f := c.Fn("abft.Orderer.onFrameDecided")
+	// decided on the inlined view of onFrameDecided in which the store's own methods stay calls: the
+	// restart of the election and the epoch switch may live in helpers (sealEpoch, a common "start epoch"
+	// routine shared with Reset); error results that such a helper hands on are followed by value
+	// (c01EnvQuery), so that `if err := helper(); err != nil { return true, err }` is not read as a way
+	// round the restart
+	f := c02DecideView(c)
 	frame := f.Param(0)
 	ldfF := "abft.LastDecidedState.LastDecidedFrame"
 	namer := func(e ast.Expr) string {
@@ -149,7 +177,7 @@ func frameBookkeeping(c *core.Ctx) {
 			}
 		}
 		// no path reaches the restart (and leaves) without the frame having been recorded
-		if before, _ := f.MustPassBefore(setPts, r.Pt); !before {
+		if before, _ := c02MustPassBefore(f, setPts, r.Pt); !before {
 			if after, _ := f.MustPassAfter(r.Pt, setPts); !after {
 				ok, why = false, "a path restarts the election without assigning LastDecidedFrame"
 			}
@@ -165,10 +193,10 @@ func frameBookkeeping(c *core.Ctx) {
 	// every successful path records the frame and restarts the election
 	okE := len(resets) >= 1
 	for _, rp := range returnsWith(f, 1, func(e ast.Expr) bool { return core.IsNil(f.Info(), e) }) {
-		if o, _ := f.MustPassBefore(core.Points(resets), rp); !o {
+		if o, _ := c02MustPassBefore(f, core.Points(resets), rp); !o {
 			okE = false
 		}
-		if o, _ := f.MustPassBefore(setPts, rp); !o {
+		if o, _ := c02MustPassBefore(f, setPts, rp); !o {
 			okE = false
 		}
 	}
@@ -177,7 +205,7 @@ func frameBookkeeping(c *core.Ctx) {
 	pers := core.Points(f.CallsTo("abft.Store.SetLastDecidedState"))
 	okP := len(pers) >= 1
 	for _, rp := range returnsWith(f, 1, func(e ast.Expr) bool { return core.IsNil(f.Info(), e) }) {
-		if o, _ := f.MustPassBefore(pers, rp); !o {
+		if o, _ := c02MustPassBefore(f, pers, rp); !o {
 			okP = false
 		}
 	}
